@@ -319,7 +319,8 @@ class OverwriteableFileConsumer(PrefixingLogMixin):
         self.current_size = download_size
         self.f = tempfile_maker()
         self.downloaded = 0
-        self.milestones = []  # empty heap of (offset, d)
+        self.milestones = []  # empty heap of (offset, serial, d)
+        self._milestone_serial = 0  # tie-breaker: Deferreds cannot be compared
         self.overwrites = []  # empty heap of (start, end)
         self.is_closed = False
 
@@ -423,7 +424,7 @@ class OverwriteableFileConsumer(PrefixingLogMixin):
                 milestone = end
 
         while len(self.milestones) > 0:
-            (next_, d) = self.milestones[0]
+            (next_, _serial, d) = self.milestones[0]
             if next_ > milestone:
                 return
             if noisy: self.log("MILESTONE %r %r" % (next_, d), level=NOISY)
@@ -513,7 +514,8 @@ class OverwriteableFileConsumer(PrefixingLogMixin):
             return defer.succeed("already reached successfully")
         d = defer.Deferred()
         d.addCallback(_reached)
-        heapq.heappush(self.milestones, (index, d))
+        self._milestone_serial += 1
+        heapq.heappush(self.milestones, (index, self._milestone_serial, d))
         return d
 
     def when_done(self):
@@ -539,7 +541,7 @@ class OverwriteableFileConsumer(PrefixingLogMixin):
         eventually_callback(self.done)(None)
 
         while len(self.milestones) > 0:
-            (next_, d) = self.milestones[0]
+            (next_, _serial, d) = self.milestones[0]
             if noisy: self.log("MILESTONE FINISH %r %r %r" % (next_, d, res), level=NOISY)
             heapq.heappop(self.milestones)
             # The callback means that the milestone has been reached if
